@@ -168,5 +168,12 @@ class RigidCluster(Spheres):
         rotation = get_parameter('rotation')
         translation = get_parameter('translation')
         spheres = self.spheres.from_parameters(parameters)
+        is_physical = all([isinstance(val, Number) for val in
+                           list(rotation) + list(translation)])
+        if not is_physical:
+            # rotation or translation are still priors (e.g. when a model
+            # is rebuilt from its parameters): the spheres cannot be moved
+            # yet, so the result has to stay a RigidCluster
+            return RigidCluster(spheres, translation, rotation)
         return spheres.rotated(rotation).translated(translation)
 
